@@ -152,6 +152,19 @@ example :
     (runForeverO c { s1 with dials := [.established [⟨10, false, .message 1 [0x61] false⟩, ⟨10, false, .eof⟩]] }).2 = .returned false := by
   decide
 
+/-- non-vacuity of the general theorems: a plan in which on_message calls close(), on_ping raises
+    KeyboardInterrupt and on_data raises satisfies `CloseOk` and `ErrOk`; on a concrete world the run
+    returns, so `C14_once_last` / `C14_return_value` / `C14_clean` / `C14_rerun` apply to it. -/
+example :
+    let c : Cfg := { has := fun _ => true,
+                     plan := fun cb => if cb = .onMessage then [.ok, .close] else if cb = .onPing then [.ki]
+                                       else if cb = .onData then [.raise] else [],
+                     iv := 300, to := some 200, payload := [1], reconnect := 0, ssl := true, horizon := 100000, fuel := 60 }
+    CloseOk c ∧ ErrOk c ∧
+    (runForeverO c { dials := [.established [⟨100, false, .message 1 [0x61] false⟩, ⟨50, false, .message 2 [7] true⟩,
+        ⟨700, false, .ping []⟩]], sched := [true] }).2 = .returned false := by
+  refine ⟨fun k => Or.inl ?_, ⟨rfl, fun k => Or.inl ?_⟩, by decide⟩ <;> simp [Cfg.act]
+
 /- Full-strength target that does NOT hold of the code (finding F13, recorded):
 
      theorem C14_app_close_clean : "close() called from ANY callback ends the run without an error report
